@@ -16,9 +16,11 @@ import (
 	"context"
 	"crypto/sha256"
 	"encoding/hex"
+	"encoding/json"
 	"fmt"
 	"hash"
 	"math/rand/v2"
+	"os"
 	"runtime"
 	"sort"
 	"strings"
@@ -1285,17 +1287,53 @@ func TestCheck(t *testing.T) {
 	r.Assume("VirtualRead/VirtualWrite/VirtualAllocate/VirtualClose are only called with a matching open descriptor (API precondition of Leaf)")
 	r.Assume("the bounded wait for writers is best effort: an upload that does not wait is counted, not reported")
 	r.Assume("the instrumented pool file is the ground truth for the bytes of a file; FilePool handles are not thread-safe, so any two overlapping calls on one handle are reported")
-	for _, s := range []string{"last-reference-dropped-by-unlink", "last-reference-dropped-by-close-after-unlink", "last-reference-dropped-by-close-frozen",
+	floors := []string{"last-reference-dropped-by-unlink", "last-reference-dropped-by-close-after-unlink", "last-reference-dropped-by-close-frozen",
 		"unlinked-while-descriptor-open", "writer-blocked-by-frozen-reader", "upload-after-timeout-with-writer-open", "upload-waited-for-writers-to-close",
-		"last-reference-dropped-by-upload-finishing-last", "stale-file-operation", "link-of-unlinked-file-rejected", "upload-cas-failure", "upload-after-content-change", "stress-round", "stress-upload-raced-writer"} {
+		"last-reference-dropped-by-upload-finishing-last", "stale-file-operation", "link-of-unlinked-file-rejected", "upload-cas-failure", "upload-after-content-change", "stress-round", "stress-upload-raced-writer"}
+	if rf := r.ReplayFile(); rf != "" {
+		// Re-run exactly the recorded case (stepped cases are
+		// deterministic up to goroutine scheduling; stress rounds are
+		// repeated).
+		mode, idx, err := readReplay(rf)
+		if err != nil {
+			t.Fatalf("cannot read replay file %s: %v", rf, err)
+		}
+		if mode == "stepped" {
+			runStepped(r, idx)
+		} else {
+			for k := 0; k < 20 && !stopRun.Load(); k++ {
+				runStressRound(r, idx)
+			}
+		}
+		return
+	}
+	for _, s := range floors {
 		r.Floor(s, 3)
 	}
-	n := r.Pick(800, 8000)
+	n := r.Pick(600, 8000)
 	for i := 0; i < n && !stopRun.Load(); i++ {
 		runStepped(r, i)
 	}
-	rounds := r.Pick(150, 1500)
+	rounds := r.Pick(120, 1500)
 	for i := 0; i < rounds && !stopRun.Load(); i++ {
 		runStressRound(r, i)
 	}
+}
+
+// readReplay extracts mode and case index from a witness file.
+func readReplay(path string) (string, int, error) {
+	b, err := os.ReadFile(path)
+	if err != nil {
+		return "", 0, err
+	}
+	var f struct {
+		Witness struct {
+			Mode string `json:"mode"`
+			Case int    `json:"case"`
+		} `json:"witness"`
+	}
+	if err := json.Unmarshal(b, &f); err != nil {
+		return "", 0, err
+	}
+	return f.Witness.Mode, f.Witness.Case, nil
 }
